@@ -48,6 +48,16 @@ Additions (Loader package):
    keeps its own `return`s).
  * spec key `returns` (a Lean term): emitted as the final `return` of a function that ends without one (a python
    procedure whose effect is the threaded state).
+
+Function-level scoping of python locals (added for units.py `convert_expression_recursively`):
+ * a PARAMETER that the body assigns to is re-declared `let mut p := p` at the top;
+ * spec key `locals_init: {name: 'Type := value'}` hoists a local that python first assigns inside a branch / `try` /
+   loop and reads after it: `let mut name : Type := value` at the top (the value is never observable when python
+   assigns before use; otherwise python would raise UnboundLocalError);
+ * spec key `skip_defs: [name…]`: nested `def`s that are translated as functions of their own (bind the calls by a pattern);
+ * a tuple assignment whose targets mix new names, mutable names, `_` and the variable of the enclosing `for` goes
+   through fresh temporaries: `let (t0__, t1__) := rhs; a := t0__; let b := t1__` (a `for` variable is shadowed by a
+   `let`, which is only accepted directly in the loop body).
 """
 import ast
 import copy
@@ -139,6 +149,7 @@ class Fn:
         self.mut = set(spec.get('mutable', []))
         self.declared = set()
         self.for_depth = 0
+        self.loop_vars = []          # [(names of the for target, indentation of the loop body)]
         self.lines = []
 
     # ---------------------------------------------------------------- expressions
@@ -381,8 +392,27 @@ class Fn:
         names = self.target_names(target)
         monadic = rhs_text.startswith('←')
         rhs = rhs_text[1:].strip() if monadic else rhs_text
-        if all(nm in self.declared and nm in self.mut for nm in names):
+        loopvars = {nm for vs, _ in self.loop_vars for nm in vs}
+        if all(nm in self.declared and nm in self.mut for nm in names) and not any(nm in loopvars for nm in names):
             self.emit(ind, '%s %s %s' % (self.target_text(target), '←' if monadic else ':=', rhs))
+            return
+        mixed = (any(nm in self.declared and nm in self.mut for nm in names)
+                 or (any(nm in self.mut for nm in names) and not all(nm in self.mut for nm in names)))
+        if len(names) > 1 and (mixed or any(nm in loopvars for nm in names)):
+            tmps = ['t%d__' % i for i in range(len(names))]
+            self.emit(ind, 'let (%s) %s %s' % (', '.join(tmps), '←' if monadic else ':=', rhs))
+            for nm, tmp in zip(names, tmps):
+                if nm == '_':
+                    continue
+                if nm in loopvars:
+                    if not any(nm in vs and ind == bi for vs, bi in self.loop_vars):
+                        raise TranslationError('assignment to the loop variable `%s` below the top of the loop body' % nm)
+                    self.emit(ind, 'let %s := %s' % (mangle(nm), tmp))
+                elif nm in self.declared and nm in self.mut:
+                    self.emit(ind, '%s := %s' % (mangle(nm), tmp))
+                else:
+                    self.emit(ind, 'let %s%s := %s' % ('mut ' if nm in self.mut else '', mangle(nm), tmp))
+                    self.declared.add(nm)
             return
         if any(nm in self.declared and nm in self.mut for nm in names):
             raise TranslationError('tuple assignment mixes new and mutable names: ' + ', '.join(names))
@@ -416,6 +446,8 @@ class Fn:
             return                                            # logging
         if isinstance(s, ast.Pass):
             return
+        if isinstance(s, ast.FunctionDef) and s.name in self.spec.get('skip_defs', []):
+            return                                            # translated as a function of its own
         if isinstance(s, ast.FunctionDef):
             if not (len([b for b in s.body if not (isinstance(b, ast.Expr) and isinstance(b.value, ast.Constant))]) == 1
                     and isinstance(s.body[-1], ast.Return)):
@@ -490,7 +522,9 @@ class Fn:
             saved = set(self.declared)
             self.declared.update(self.target_names(s.target))
             self.for_depth += 1
+            self.loop_vars.append((self.target_names(s.target), ind + 1))
             self.stmts(s.body, ind + 1)
+            self.loop_vars.pop()
             self.for_depth -= 1
             self.declared = saved
             return
@@ -596,7 +630,8 @@ class Fn:
         for nm in params:
             # a parameter that the body assigns to (`units = self.units.get_unit(units)`), or that the spec lists as
             # `mutable` (re-assigned by a statement pattern), is re-bound as a mutable local
-            if (nm in counts or nm in self.spec.get('mutable', [])) and nm not in explicit:
+            if (nm in counts or nm in self.spec.get('mutable', [])) and nm not in explicit \
+                    and nm not in self.spec.get('state', []) and 'while_body' not in self.spec:
                 self.emit(1, 'let mut %s := %s' % (mangle(nm), mangle(nm)))
                 self.mut.add(nm)
         for nm in explicit:
@@ -605,6 +640,10 @@ class Fn:
             self.declared.add(nm)
         for nm in self.spec.get('state', []):
             self.emit(1, 'let mut %s := %s' % (mangle(nm), mangle(nm)))
+            self.mut.add(nm)
+            self.declared.add(nm)
+        for nm, init in self.spec.get('locals_init', {}).items():
+            self.emit(1, 'let mut %s : %s' % (mangle(nm), init))
             self.mut.add(nm)
             self.declared.add(nm)
         self.stmts(body, 1)
